@@ -146,7 +146,7 @@ def main():
                      structured='numeric fields of 1..21(22) symbolic digits in major / patch / pre-release / second pre-release / build position; free pre-release and build tails',
                      relang='unbounded length')
     ck.outside = ['free strings longer than the bound (covered only through the unbounded regex-language result)',
-                  'zerv check --format semver exit status / text (process level)', 'code points above U+2FFFF in the RegLan queries']
+                  'the process exit status of zerv check (run_check_command itself is executed: same verdict and normal form)', 'code points above U+2FFFF in the RegLan queries']
     ck.assumptions = ['regex crate modelled by a leftmost-first backtracking matcher over the HIR produced by the locked regex-syntax; validated against native on test literals',
                       'per-path grammar oracle = the same matcher on my own ASCII SemVer pattern; cross-checked with z3 RegLan on the small families',
                       'relang impl\\spec query restricts major/minor/patch classes to ASCII digits (what parse::<u64> accepts); its witness is replayed natively']
